@@ -39,6 +39,7 @@ type History struct {
 	Flavor     string `json:"flavor,omitempty"`
 	AllOptOut  bool   `json:"alloptout,omitempty"` // twin run: every client attaches WithDisableGC
 	Quiesce    int    `json:"quiesce"`           // number of final sync rounds
+	Late       []int  `json:"late,omitempty"`    // clients that are NOT attached during setup (they attach by an A step)
 	Pin        bool   `json:"pin,omitempty"`     // twin run: an extra attached client that never syncs again keeps the minimum version vector at its start, so nothing is ever purged
 }
 
